@@ -418,8 +418,18 @@ def gen(rng, tier, idx):
         """one read whose only operand is word w: search / one-word phrase / glob with a single match / apply"""
         r = rng.random()
         if impl == "text" and r < 0.35:
-            if rng.random() < 0.7:
+            r2 = rng.random()
+            if r2 < 0.6:
                 return [["apply", "a", new_term([w])]]
+            if r2 < 0.75:
+                parts = [new_term([w]), new_term([])]          # the word and a stop word: a one-id phrase
+                if rng.random() < 0.5:
+                    parts.reverse()
+                lexn[0] += 1
+                pid = lexn[0]
+                terms[pid] = [w]
+                cmds.append(["lexp", pid, "_".join("t%d" % i for i in parts), w])
+                return [["apply"] + tree_tokens(("p", pid, parts))]
             gid = new_term([w])
             cmds.append(["lex", "g", gid, w])
             return [["apply", "g", gid]]
@@ -733,7 +743,7 @@ def features(case, outs):
                 if any(n > cutoff for n in df.values()):
                     f.append("wordinfo-is-btree(>cutoff docs)")
                 live = [x for x in w if df.get(x)]
-                if len(live) == 1 and len(w) == 1 and (op != "apply" or c[1] in ("a", "g")):
+                if len(live) == 1 and len(w) == 1 and (op != "apply" or (c[1] in ("a", "g", "p") and len(c) <= 4)):
                     key = (op if op != "apply" else "apply-" + c[1], live[0])
                     read[key] = read.get(key, 0) + 1
                     tree = "stored-tree" if df[live[0]] > cutoff else "dict"
